@@ -24,7 +24,7 @@ RULE = ("case = (coupling class, mask pattern [exhaustive over non-trivial subse
         "differs from its input (the layer is not the identity) and a perturbation of a transformed input moved its own output")
 ASSUMPTIONS = ["expected transformed set = {i : mask[i] > 0} computed by the harness from the constructor argument",
                "bitwise equality is meaningful because the same process evaluates both sides single-threaded"]
-REQUIRED_COUNTS = ["identity_bitwise_checks", "perturbation_checks", "jacobian_pattern_checks"]
+REQUIRED_COUNTS = ["identity_bitwise_checks", "perturbation_checks", "jacobian_pattern_checks", "layout_checks", "mask_alias_checks"]
 BUDGET = {"case_timeout": {"quick": 300, "thorough": 1800}}
 
 CLASSES = ["coupling_affine", "coupling_additive", "coupling_linear", "coupling_quadratic", "coupling_cubic",
@@ -184,6 +184,38 @@ def run_case(case):
                 r.viol("identity_uncond", "%s identity part != unconditional transform applied alone" % fam,
                        direction=direction, mask=mask, max_diff=float((out[:, I] - ref).abs().max()), cfg=cfg)
         moved = bool((out[:, T] != z[:, T]).any())
+        # ---- (a') the same values in other memory layouts (views whose trailing axes cannot be merged, channels-last):
+        #      identity features still bit-for-bit, everything else as for the contiguous tensor
+        lays = []
+        if z.dim() == 4:
+            lays.append(("transposed_hw_view", z.transpose(2, 3).contiguous().transpose(2, 3)))
+            lays.append(("channels_last", z.contiguous(memory_format=torch.channels_last)))
+            big = torch.full((z.shape[0], z.shape[1] + 2, z.shape[2] + 1, z.shape[3] + 1), 7.0, dtype=z.dtype)
+            big[:, 1:-1, 1:, :-1] = z
+            lays.append(("slice_of_larger", big[:, 1:-1, 1:, :-1]))
+        else:
+            lays.append(("transposed_view", z.t().contiguous().t()))
+            big = torch.full((z.shape[0] + 1, 2 * z.shape[1]), 7.0, dtype=z.dtype)
+            big[1:, ::2] = z
+            lays.append(("strided_slice", big[1:, ::2]))
+        for lname, zl in lays:
+            resl = _call(r, fn, zl, ctx, direction, fam, cfg)
+            if resl is None:
+                continue
+            r.ev()
+            r.count("layout_checks")
+            outl = resl[0].detach()
+            if outl.shape != out.shape:
+                r.viol("layout_dependence", "%s output shape depends on the memory layout of the inputs" % fam, layout=lname,
+                       direction=direction, mask=mask, cfg=cfg)
+                continue
+            if not uncond and not ww.same_bits(outl[:, I], z[:, I]):
+                r.viol("identity_changed", "%s identity features are not returned bit-for-bit" % fam, direction=direction,
+                       mask=mask, layout=lname, max_diff=float((outl[:, I] - z[:, I]).abs().max()), cfg=cfg)
+            elif not bool(((outl - out).abs() <= 1e-12 * (1 + out.abs())).all()) or not bool(
+                    ((resl[1] - lad).abs() <= 1e-11 * (1 + lad.abs())).all()):
+                r.viol("layout_dependence", "%s results depend on the memory layout of the inputs" % fam, layout=lname,
+                       direction=direction, mask=mask, max_diff=float((outl - out).abs().max()), cfg=cfg)
         # ---- (b) perturb one element of a transformed feature
         own_moved = False
         for j in T:
@@ -247,6 +279,31 @@ def run_case(case):
         if moved and own_moved:
             r.cell(fam, D, patt, "img" if image else "2d", "ctx" if ctx is not None else "noctx", direction,
                    "uncond" if uncond else "-")
+    # ---- (a'') the mask handed over as a TENSOR that the caller goes on using (SimpleRealNVP flips its own mask in place between
+    #      layers): the layer keeps the split it was constructed with
+    try:
+        mask_t = torch.tensor(mask)
+        twin = zoo.make(dict(cfg, mask=mask_t), pol, case["seed"])
+        with torch.no_grad():
+            before = twin(x, ctx)
+        mask_t.mul_(-1.0)
+        mask_t.add_(0.25)
+        with torch.no_grad():
+            after = twin(x, ctx)
+            ref = model(x, ctx)
+        r.ev()
+        r.count("mask_alias_checks")
+        if not (ww.same_bits(before[0], after[0]) and ww.same_bits(before[1], after[1])):
+            r.viol("mask_aliased", "%s changes its split when the caller modifies the mask tensor it was constructed from" % fam,
+                   mask=mask, cfg=cfg, max_diff=float((before[0] - after[0]).abs().max()))
+        elif not uncond and not ww.same_bits(after[0][:, I], x[:, I]):
+            r.viol("identity_changed", "%s identity features are not returned bit-for-bit" % fam, direction="forward", mask=mask,
+                   mask_as="tensor", cfg=cfg)
+        elif not bool(((after[0] - ref[0]).abs() <= 1e-12 * (1 + ref[0].abs())).all()):
+            r.viol("mask_aliased", "%s built from a mask tensor differs from the one built from the same values as a list" % fam,
+                   mask=mask, cfg=cfg, max_diff=float((after[0] - ref[0]).abs().max()))
+    except Exception as e:
+        r.viol("construct", "%s cannot be constructed from / used with a mask given as a tensor" % fam, exc=repr(e)[:200], cfg=cfg)
     # ---- (c) Jacobian pattern on one item (forward)
     if not uncond and fam != "coupling_umnn" or (fam == "coupling_umnn" and not uncond):
         try:
